@@ -14,7 +14,8 @@ type job struct {
 	thoroughOnly bool
 	fuzz         string
 	fuzzTime     [2]time.Duration
-	weight       int // CPU slots this unit occupies (default 1)
+	weight       int    // CPU slots this unit occupies (default 1)
+	arch         string // "386": run this job with the 32-bit build of the tests
 	env          []string
 }
 
@@ -43,6 +44,7 @@ var props = map[string]*prop{
 		level: "exploration", exhaustive: false,
 		jobs: []job{
 			regress,
+			{name: "table-int32", run: "^TestC01_Table$", arch: "386", thoroughOnly: true},
 			{name: "after-validation", run: "^TestC01_AfterValidation$"},
 			{name: "concurrent", run: "^TestC01_Concurrent$", weight: 8},
 			{name: "table", run: "^TestC01_Table$"},
@@ -64,6 +66,7 @@ var props = map[string]*prop{
 		level: "exploration",
 		jobs: []job{
 			regress,
+			{name: "scan-int32", run: "^TestC03_Scan$", arch: "386", thoroughOnly: true, checks: [2]int{0, 60}},
 			{name: "concurrent", run: "^TestC03_Concurrent$", weight: 8},
 			{name: "scan", run: "^TestC03_Scan$", shards: [2]int{4, 16}, checks: [2]int{40, 250}},
 			{name: "mutated", run: "^TestC03_Mutated$", shards: [2]int{4, 16}, checks: [2]int{8000, 120000}},
@@ -94,6 +97,7 @@ var props = map[string]*prop{
 		level: "exploration",
 		jobs: []job{
 			regress,
+			{name: "grid-int32", run: "^TestC14_Grid$", arch: "386"},
 			{name: "grid", run: "^TestC14_Grid$", shards: [2]int{4, 16}},
 			{name: "random", run: "^TestC14_Random$", shards: [2]int{4, 16}, checks: [2]int{6000, 200000}},
 			{name: "fuzz-seeds", run: "^FuzzC14$"},
@@ -187,6 +191,7 @@ var props = map[string]*prop{
 		level: "exploration", exhaustive: true,
 		jobs: []job{
 			regress,
+			{name: "range-int32", run: "^TestC09_Range$", arch: "386"},
 			{name: "range", run: "^TestC09_Range$", shards: [2]int{1, 16}},
 			{name: "random", run: "^TestC09_Random$", shards: [2]int{1, 16}, checks: [2]int{20000, 300000}},
 			{name: "fuzz", fuzz: "FuzzC09", thoroughOnly: true, fuzzTime: [2]time.Duration{0, 60 * time.Second}, weight: 16},
@@ -205,6 +210,7 @@ var props = map[string]*prop{
 		level: "exploration", exhaustive: true,
 		jobs: []job{
 			regress,
+			{name: "range-int32", run: "^TestC16_Range$", arch: "386"},
 			{name: "concurrent", run: "^TestC16_Concurrent$", weight: 8},
 			{name: "range", run: "^TestC16_Range$", shards: [2]int{1, 16}},
 			{name: "random", run: "^TestC16_Random$", shards: [2]int{1, 16}, checks: [2]int{20000, 1000000}},
